@@ -1380,3 +1380,62 @@ def c20_a_backend_built_on_another():
             sys.modules.pop(name, None)
         shutil.rmtree(d, ignore_errors=True)
     return out[:2]
+
+
+def c05_chunks_that_are_whole_messages():
+    """Chunk independence where a chunk happens to BE one complete message (a backend that delivers
+    message by message) while an unfinished message or sysex is pending, followed by bytes that would
+    complete the unfinished one: every carrier, Parser and ParserQueue; the reference is the same
+    stream fed byte by byte (which the TokChunks rows tie to the specification)."""
+    mido = _mido()
+    import array
+    from collections import deque
+    from mido.backends._parser_queue import ParserQueue
+    M = mido.Message
+    out = []
+    partials = [[0x90, 1], [0x90], [0xf0, 1, 2], [0xf0], [0xe3, 5], [0xf2, 5], [0xb0, 7], [0xf1]]
+    wholes = [M('note_off', note=2, velocity=3), M('note_on', channel=1, note=9, velocity=9), M('program_change', program=4),
+              M('pitchwheel', pitch=100), M('songpos', pos=5), M('clock'), M('sysex', data=(4,)), M('quarter_frame', frame_type=1, frame_value=2),
+              M('song_select', song=3), M('tune_request'), M('control_change', control=1, value=2)]
+    tails = [[5], [5, 6], [0xf7], [7, 0xf7], [5, 0x90, 1, 2]]
+    carriers = [('list', list), ('tuple', tuple), ('bytes', bytes), ('bytearray', bytearray), ('array', lambda c: array.array('B', c)),
+                ('memoryview', lambda c: memoryview(bytes(c))), ('deque', deque), ('generator', lambda c: (b for b in c))]
+
+    def bytewise(stream):
+        p = mido.Parser()
+        for b in stream:
+            p.feed_byte(b)
+        return [m.bytes() for m in p]
+    for pre in partials:
+        for w in wholes:
+            for tail in tails:
+                chunks = [pre, w.bytes(), tail]
+                ref = bytewise(pre + w.bytes() + tail)
+                if ref != [m.bytes() for m in mido.parse_all(pre + w.bytes() + tail)]:
+                    out.append(('whole-chunks', 'byte by byte and all at once disagree on %r' % (pre + w.bytes() + tail,)))
+                    continue
+                for cname, mk in carriers:
+                    p, q = mido.Parser(), ParserQueue()
+                    try:
+                        for c in chunks:
+                            p.feed(mk(c))
+                            q.put_bytes(mk(c))
+                        got, gq = [m.bytes() for m in p], [m.bytes() for m in q.iterpoll()]
+                    except Exception as e:
+                        out.append(('whole-chunks', 'chunks %r as %s: %r' % (chunks, cname, e)))
+                        break
+                    if got != ref or gq != ref:
+                        out.append(('whole-chunks', 'the stream %r fed as the chunks %r (%s) gives %r, byte by byte %r'
+                                    % (pre + w.bytes() + tail, chunks, cname, got if got != ref else gq, ref)))
+                        break
+                if len(out) >= 3:
+                    return out
+    return out
+
+
+def c04_chunks_that_are_whole_messages():
+    return c05_chunks_that_are_whole_messages()
+
+
+def c06_chunks_that_are_whole_messages():
+    return c05_chunks_that_are_whole_messages()
